@@ -53,6 +53,15 @@ def run(check: Check) -> None:
         check.obligation("kind_change.numeric_levels/ground", "refuted" if bad else "ground")
         if bad:
             check.violation(f"kind-change::numeric-levelled {col}->{how}::{bad.split(':', 1)[0]}", bad, p)
+    # a recorded level that is ABSENT from the follow-up data (also one that is not the last in level order) keeps its all-zero
+    # column, and the other columns keep their meaning - for every output type incl. sparse (ground)
+    for formula, out, lost in itertools.product(("A", "0 + A", "a:A", "A + a:B", "C(A, contr.sum) + b"), ("pandas", "numpy", "sparse"), ("x", "y", "z")):
+        p = {"kind": "c09_lost_level", "formula": formula, "output": out, "lost": lost}
+        bad = replays.run(p)
+        check.case(f"lost level {formula}:{out}:{lost}")
+        check.obligation("lost_levels.outputs/ground", "refuted" if bad else "ground")
+        if bad:
+            check.violation(f"lost-level::{out}::{bad.split(':', 1)[0]}", bad, p)
     for formula in FORMULAS:
         for out in ("pandas", "numpy"):
             mm0 = model_matrix(formula, dtrain, output=out)
